@@ -117,18 +117,23 @@ def setPhase (s : State) (k : Nat) (f : Flight) (p : Phase) : State :=
 
 /-- `rc.dec`: the Bool is "close botch: count already 0". -/
 def dec (fixed : Bool) (s : State) (r : Nat) : State × Bool :=
-  match (s.rc r).count with
-  | 0 => (s, true)
-  | 1 =>
+  if (s.rc r).count = 0 then (s, true)
+  else if (s.rc r).count = 1 then
     ({ s with rc := upd s.rc r { s.rc r with count := 0, fileOpen := false },
               arena := if fixed then
                          (if s.arena (s.rc r).key = some r then upd s.arena (s.rc r).key none else s.arena)
                        else upd s.arena (s.rc r).key none }, false)
-  | n + 2 => ({ s with rc := upd s.rc r { s.rc r with count := n + 1 } }, false)
+  else ({ s with rc := upd s.rc r { s.rc r with count := (s.rc r).count - 1 } }, false)
 
 /-- What every waiter of the flight on `k` becomes when the flight ends. -/
 def deliver (k : Nat) (res : Option Nat) (p : Pc) : Pc :=
   if p = .waiting k then (match res with | some r => .got k r | none => .failed) else p
+
+/-- Ghost bookkeeping: a flight that ends with an rc nobody waits for and nobody references
+    leaves an orphan in the arena. -/
+def orphansAfter (s : State) (k : Nat) : Option Nat → List Nat
+  | some r => if s.tasks.countP (· = .waiting k) = 0 ∧ (s.rc r).count = 0 then r :: s.orphans else s.orphans
+  | none => s.orphans
 
 def resultOf : Phase → Option (Option Nat)
   | .hit r => some (some r)
@@ -188,9 +193,7 @@ def stepG (fixed : Bool) (s : State) : Op → State × Out
         let n := s.tasks.countP (· = .waiting k)
         ({ s with flight := upd s.flight k none,
                   tasks := s.tasks.map (deliver k res),
-                  orphans := match res with
-                    | some r => if n = 0 ∧ (s.rc r).count = 0 then r :: s.orphans else s.orphans
-                    | none => s.orphans }, .ended n res.isSome)
+                  orphans := orphansAfter s k res }, .ended n res.isSome)
       | none => (s, .bad)
     | none => (s, .bad)
   | .cancel t =>
